@@ -131,12 +131,23 @@ def streams(tier, rng, P, only=None, cases=None):
             jp = "".join(w[0] for w in ws)
             cs.append(dict(req=None, jp=jp, key="m%d" % i, show=jp))
         return cs
-    mcases = cases if (cases and only == "midi") else mk_midi()
+    def mk_midi_ascii():
+        # a source that is ASCII throughout but defines and uses words: the definitions must be applied in the whole pipeline too
+        cs = []
+        for i in range(120 if big else 25):
+            name = rng.choice(["abc", "riff", "x1", "qq", "Zed"]); value = rng.choice(["o5 l8 cde", "c d", "[2 e]", "l8 g", "o4 c2"])
+            uses = [rng.choice([name, name, "r", "e8"]) for _ in range(rng.randrange(1, 5))]
+            if name not in uses: uses.append(name)
+            jp = "~{%s}={%s} %s" % (name, value, " ".join(uses)); mml_ = " ".join(value if u == name else u for u in uses)
+            cs.append(dict(req="compile2 %s %s" % (hx(jp), hx(mml_)), jp=jp, mml=mml_, key="a%d" % i, show="%s  vs  %s" % (jp, mml_)))
+        return cs
+    mcases = cases if (cases and only == "midi") else (mk_midi() + mk_midi_ascii())
     # expected transliteration comes from the Lean specification: two-phase (first ask the driver)
     from ..core import run_driver
     if mcases and mcases[0].get("req") is None:
-        outs = run_driver(["sutspec " + hx_seg("T", c["jp"]) for c in mcases])
-        for c, o in zip(mcases, outs):
+        todo = [c for c in mcases if c.get("req") is None]
+        outs = run_driver(["sutspec " + hx_seg("T", c["jp"]) for c in todo])
+        for c, o in zip(todo, outs):
             c["mml"] = unhx(o.split("out=")[1]).decode("utf-8", "replace") if "out=" in o else ""
             c["req"] = "compile2 %s %s" % (hx(c["jp"]), hx(c["mml"]))
             c["show"] = "%s  vs  %s" % (c["jp"], c["mml"])
